@@ -8,8 +8,13 @@ def _legs(tier):
     out = []
     for name, env in (("oc1", _OC1), ("oc0", _OC0)):
         out.append({"name": "images-" + name, "driver": "atrb", "env": env,
-                    "gen": [("ATRollback_MC", "ATRollback_Gen_C18.cfg")],
+                    "gen": [("ATRollback_MC", "ATRollback_Gen_C18.cfg")] +
+                           ([("ATRollback_MC", "ATRollback_Gen_C18T.cfg")] if tier == "thorough" else []),
                     "trace": ("ATRollback_Trace", "ATRollback_Trace.cfg"), "shards": 4})
+    # composite primary key whose rows share the leading key column (plain spelling, one statement)
+    out.append({"name": "images-comp", "driver": "atrb", "env": dict(_OC1, SCHEMA="t_comp"),
+                "gen": [("ATRollback_MC", "ATRollback_Gen_C18P.cfg")],
+                "trace": ("ATRollback_Trace", "ATRollback_Trace.cfg"), "shards": 2})
     return out
 
 
@@ -26,7 +31,7 @@ CHECK = {
                   "settings of only-care-update-columns. A refused statement must have recorded nothing.",
     "level_note": "Trusted: TLC, memsql, the decoder of the undo-log JSON in harness/atlab (UndoImages), the abstract/"
                   "concrete row mapping. A statement the proxy refuses although nothing is wrong with it is not a C18 "
-                  "violation as long as nothing was recorded (C16 reports it). Bounds: 2 rows, one statement; int-keyed "
+                  "violation as long as nothing was recorded (C16 reports it). Bounds: 2 rows, one statement (thorough: also every two-statement branch in plain spelling); int-keyed (one leg: composite key with a shared leading column) "
                   "schemas {plain, nullable column, many column types}.",
     "technique": "TLA+ spec computes the expected images; TLC-enumerated statements x spellings replayed on the real "
                  "proxy; recorded undo-log images validated by TLC against the specification",
